@@ -9,6 +9,11 @@ BASE = ("cd /repo && /venv/bin/python -m pytest -ra -q -p no:cacheprovider "
 
 # id -> (level, technique, text, note, design_ref)
 CHECKS = {
+ "C01": ("model_checking",
+         "explicit-state history BFS over all public mutator sequences (depth<=2 quick, <=3 thorough) on real objects with a freshly-constructed-twin oracle",
+         "For every memoising class (17 class drivers: Network, Interacting, Spatial, Geo, Res, Climate, Tsonis, RecurrencePlot, RecurrenceNetwork, Cross/Joint plots, JointRecurrenceNetwork, InterSystem, Visibility, Surrogates, ClimateData) ALL sequences of public mutators up to the depth bound are executed on a real object, with every public query (introspected, plus argument patterns) evaluated before and after each mutator, and compared with a freshly constructed twin of the reference-model state; both the all-queries-populated and the single-query-in-isolation population modes are explored.",
+         "Bounded depth and 6-10 node fixtures; mutator argument menus of 2-4 values; combinations whose meaning is undocumented (link attributes after rewiring) excluded and counted. Trusted: the reference-model update written per mutator from its documentation.",
+         "7/C01"),
  "C08": ("exploration",
          "bounded-exhaustive enumeration of all binary matrices <=5x5 on the real kernels vs run-length reference model",
          "Every symmetric 0/1 matrix with unit diagonal up to 5x5 (realised by crafted series), every 0/1 matrix up to 3x3 (4x4 thorough) assigned as R, both storage modes, every missing-value mask and every minimal line length are run through the real RecurrencePlot kernels and compared with a direct run-length count; derived measures are recomputed from the histograms.",
